@@ -294,6 +294,8 @@ impl ariadne::Cache<FileId> for Cache<'_> {
             Ok(source_file.ariadne())
         } else if *file_id == FileId::NONE {
             static EMPTY: OnceLock<ariadne::Source> = OnceLock::new();
+            #[cfg(apollo_rs_verif)]
+            let _verif_region = crate::verif::once_region("once:diagnostic::EMPTY");
             Ok(EMPTY.get_or_init(|| ariadne::Source::from(String::new())))
         } else {
             Err(NotFound(*file_id))
